@@ -478,6 +478,8 @@ class Num(Val):
         self.view_of = frozenset()   # may share memory with these caller-owned arrays (slices, asarray, transpose)
         self.mid = None         # D8 memory identity: arrays with the same mid share storage
         self.whole = True       # ... and hold the same elements in the same order (same object / zero-copy identity), not a partial view
+        self.grid = None        # integer index grid: value at (i, k) = ai*i + ak*k + c, stored as (ai, ak, c); 1-D vectors use ak = 0
+        self.idx = False        # an integer index vector (arange and its integer shifts): value = index - org
         self.rowof = None       # a row M[e] of a matrix with a block map: (blocks, e)
         self.clob = None        # the storage was overwritten through another name: description of that write
         self.org = None         # index at which the array's natural origin sits (lag 0 of a correlation, zero of an arange)
